@@ -26,7 +26,7 @@ ASSUMPTIONS = [
     "resolved coordinates bounded by +-16000",
 ]
 N = {"quick": (8, 250), "thorough": (16, 1200)}
-FLOORS = {"vertical": 0.2, "trailing-equal-advances": 0.15, "composite": 0.25, "supplementary-only": 0.03, "no-unicodes": 0.03}
+FLOORS = {"vertical": 0.112, "trailing-equal-advances": 0.097, "composite": 0.249, "supplementary-only": 0.03, "no-unicodes": 0.03}  # a third of the measured frequency: a starving generator is a harness error, sampling noise is not
 
 CPS = [0x41, 0x61, 0x20, 0x1F600, 0x20000, 0xFFFF, 0x10000, 0x3042, 0xE000, 0x0]
 
